@@ -117,6 +117,34 @@ def check(run):
         if o != e and o != "<crash>":
             oracle_fail.append((l, e, o))
 
+    # 5. the same strings side by side in ONE document (values and keys): every string must still come back byte-exact
+    #    when another string of the document is its prefix up to a NUL, its prefix, or equal to it
+    def esc(bs):
+        return b'"' + b"".join((b"\\u%04x" % c) if (c < 0x20 or c in (0x22, 0x5c)) else bytes([c]) for c in bs) + b'"'
+    doc_lines, doc_exp = [], []
+    for base in range(0, 256, 16):
+        strs = []
+        for b in range(base, base + 16):
+            if b >= 0x80:
+                continue           # keep the text valid UTF-8 (raw high bytes are exercised above)
+            for sfx in (b"", b"\x00", b"\x00" + bytes([b]), b"\x00\x00", bytes([b]), bytes([b]) + b"\x00z"):
+                strs.append(bytes([b]) + sfx)
+        strs += [b"", b"\x00", b"\x00\x00", b"ab", b"ab\x00cd", b"ab\x00", b"abc"]
+        for order in (strs, strs[::-1]):
+            text = b"[" + b",".join(esc(x) for x in order) + b"]"
+            doc_lines.append(jline(text)); doc_exp.append("[" + ",".join("s" + hx(x) if x else "s-" for x in order) + "]")
+            seen, keys = set(), []
+            for x in order:
+                if x not in seen:
+                    seen.add(x); keys.append(x)
+            text = b"{" + b",".join(esc(x) + b":" + esc(x) for x in keys) + b"}"
+            doc_lines.append(jline(text)); doc_exp.append("{" + ",".join((hx(x) if x else "-") + ":" + ("s" + hx(x) if x else "s-") for x in keys) + "}")
+    mism, mo, io = vlib.correspond(run, model, impl, doc_lines, cfg, "strings side by side")
+    all_mism += mism
+    for l, e, o in zip(doc_lines, doc_exp, io):
+        if o != "<crash>" and (not o.startswith("Ok ") or o.split(" ")[3] != e):
+            oracle_fail.append((l[:3000], "Ok ... " + e[:300], o[:400]))
+
     run.cov["rule"] = ("exhaustive over \\uXXXX code units (65536), single bytes (256), byte pairs (65536); "
                        "code points every %d-th + boundaries; surrogate pairs %s; distinct = distinct case line; "
                        "every case decodes/encodes at least one character (non-trivial)" %
